@@ -1,17 +1,16 @@
 #!/usr/bin/env python3
 """Write the task files for a round of seeding agents:  tools/mk_seed_tasks.py <round> [ID ...]
 
-Each agent gets the property text, its own scratch worktree /tmp/wt<round>-cNN and the list of ideas already used in earlier
-rounds (from seeded/*/meta.json), and nothing else.  Output: /tmp/agent<round>_task_CNN.txt
+Each agent gets the property text, its own scratch worktree /tmp/wt<round>-cNN (create it with `git -C /repo worktree add --detach`)
+and the list of ideas already used in earlier rounds (from seeded/*/meta.json), and nothing else.
+Output: /tmp/agent<round>_task_CNN.txt (scratch; the template is tools/seed_task_template.txt)
 """
 import sys, os, json, glob, re
 
 HERE = os.path.dirname(os.path.dirname(os.path.abspath(__file__)))
 rnd = sys.argv[1]
 only = [a.upper() for a in sys.argv[2:]]
-template = open('/tmp/agent2_task_C15.txt').read()
-head, rest = template.split('The semantic property you are to break:')
-task = rest[rest.index('Task: produce TWO'):rest.index('Other people already tried')]
+template = open(os.path.join(HERE, 'tools', 'seed_task_template.txt')).read()
 for line in open(os.path.join(HERE, 'properties.jsonl')):
     p = json.loads(line)
     pid = p['id']
@@ -24,12 +23,9 @@ for line in open(os.path.join(HERE, 'properties.jsonl')):
         if meta.get('property') == pid:
             name = re.sub(r'^c\d\d[a-z]?-', '', meta['name']).replace('-', ' ')
             prior.append(' - %s (files %s; manifests with: %s)' % (name, ', '.join(meta.get('files', [])), meta.get('needs_to_manifest')))
-    text = (head.replace('/tmp/wt2-c15', wt) + 'The semantic property you are to break:\n\n' +
-            '%s — %s\n\nStatement: %s\n\nQuantified over: %s\n\nAnchored in files: %s\n\n\n' % (
-                pid, p['title'], p['statement'], p['quantifier']['text'], ', '.join(p['anchors']['files'])) +
-            task.replace('/tmp/wt2-c15', wt) +
-            'Other people already tried the following ideas for this property; do NOT repeat them or close variants, find DIFFERENT '
-            'mechanisms, different functions where possible, and different triggering inputs:\n' + '\n'.join(prior) + '\n')
+    prop = '%s — %s\n\nStatement: %s\n\nQuantified over: %s\n\nAnchored in files: %s' % (
+        pid, p['title'], p['statement'], p['quantifier']['text'], ', '.join(p['anchors']['files']))
+    text = template.replace('@PROPERTY@', prop).replace('@PRIOR@', '\n'.join(prior)).replace('@WT@', wt)
     out = '/tmp/agent%s_task_%s.txt' % (rnd, pid)
     open(out, 'w').write(text)
     print(out, len(prior), 'prior ideas')
